@@ -344,6 +344,8 @@ def run(chk, facts_dir, tier):
 
     # ---- R7.3 quorum shapes
     quorum.check_all(chk, prog, "R7.3")
+    # the inputs of the quorum / watermark computation are bound to the right roles at every call (shared with C08 R8.6)
+    quorum.check_role_args(chk, prog, "R7.3")
 
     # ---- R7.4 coverage of database readers
     gated_roots = {IMPL + "handle_local_read", IMPL + "handle_partition_read_locally", IMPL + "handle_stream_read_locally",
